@@ -35,13 +35,18 @@ def oracle_day(terms, y, n):
     return G.sixty(py_idx), month_pillar(py_idx, k)
 
 
+def _rs(ts):
+    """a term starts at its instant rounded to the second"""
+    return int(ts + 0.5)
+
+
 def oracle_time(terms, y, n, sec):
-    lichun = terms[(y, 3)]
+    lichun = (terms[(y, 3)][0], _rs(terms[(y, 3)][1]))
     py_idx = (y - 4) % 60 if (n, sec) >= lichun else (y - 5) % 60
     best = None
     for (ty, ti), (tn, ts) in terms.items():
-        if ti % 2 == 1 and (tn, ts) <= (n, sec) and (best is None or (tn, ts) > best[0]):
-            best = ((tn, ts), ty, ti)
+        if ti % 2 == 1 and (tn, _rs(ts)) <= (n, sec) and (best is None or (tn, _rs(ts)) > best[0]):
+            best = ((tn, _rs(ts)), ty, ti)
     _, ty, ti = best
     k = ((ti - 3) // 2) % 12
     return G.sixty(py_idx), month_pillar(py_idx, k)
@@ -56,6 +61,7 @@ def run(ctx):
     ctx.exhaustive_note = 'complete over every day of a scenario year (9 placements) and all critical instants; not over all real dates'
     from rules import shared
     ctx.include('effect_inventory', shared.effect_inventory)   # no new process-wide mutable state (MIR statics inventory)
+    ctx.include('jd_tables', shared.jd_tables)           # civil date <-> day number and Julian date -> clock (term instants become days / instants through them)
     ctx.include('month_records', shared.month_records)   # leap table, solstice anchor, month memo, memo cells (shared, cached per source hash)
     I = ctx.interp(fuel=30000000)
     t = T(I)
@@ -138,7 +144,7 @@ def run(ctx):
         for (ty, ti), (tn, ts) in sorted(tm.items()):
             if ti % 2 == 1 and CAL.from_jdn(tn)[0] == Y:
                 for ds in (-1, 0, 1, 61, -61, 3601):
-                    s2 = ts + ds
+                    s2 = _rs(ts) + ds
                     if 0 <= s2 < 86400:
                         out.append((tn, s2))
                 for dn in (-1, 0, 1):
@@ -148,7 +154,8 @@ def run(ctx):
             out.append((n, 45296))
         return sorted(set(x for x in out if CAL.from_jdn(x[0])[0] == Y))
     # Jie seconds chosen to exercise the second/minute/hour comparison levels: same minute different second etc.
-    sec = dict((i, (i * 3607 + 1234) % 86000 + 100) for i in range(24))
+    # ... with sub-second fractions on both sides of .5: a term starts at its instant ROUNDED to the second, for the year and the month pillar alike
+    sec = dict((i, (i * 3607 + 1234) % 86000 + 100 + (0.4 if i % 4 in (0, 3) else 0.6)) for i in range(24))     # Lichun (3) rounds down, Jingzhe (5) rounds up, ...
     terms_t = typical_terms([Y - 1, Y, Y + 1, Y + 2], sec=sec)
     scen_t = [('newyear=lichun%+d' % o, terms_t, synthetic_months(Y, lichun + o, 2, prev_months=3)) for o in (-14, 0, 14)]
     terms_tj = typical_terms([Y - 1, Y, Y + 1, Y + 2], shift=dict((i, -12) for i in range(24)), sec=sec)
@@ -206,6 +213,7 @@ def run(ctx):
     hs = []
     for (ty, ti), (tn, ts) in sorted(terms_t.items()):
         if ti % 2 == 1 and CAL.from_jdn(tn)[0] == Y:
+            ts = _rs(ts)
             for s0 in (600, max(0, ts - 3600)):
                 for dn in (ts - s0 - 1, ts - s0, ts - s0 + 1, 7200, 36000, 80000, -7200, 86400 + 100):
                     if s0 + dn >= -86400:
